@@ -61,6 +61,8 @@ pub struct FaultScenario {
 	pub lib_points: bool,
 	pub tx_points: bool,
 	pub all_points: bool,
+	/// loop points of the client tasks and the transport points park only once per execution
+	pub hold_once: bool,
 }
 
 impl FaultScenario {
@@ -92,13 +94,16 @@ fn mask_nolib(l: &str) -> bool {
 impl Scenario for FaultScenario {
 	type State = CliState;
 	fn name(&self) -> String {
-		format!("cli_mem/fault:{:?}:{:?}:answered{:?}:{}:{}", self.ops, self.id_kind, self.answered, self.fault.name(), if self.all_points { "allpoints" } else if self.lib_points { "libpoints" } else { "nolib" })
+		format!("cli_mem/fault:{:?}:{:?}:answered{:?}:{}:{}", self.ops, self.id_kind, self.answered, self.fault.name(), if self.all_points { "allpoints" } else if self.lib_points { "libpoints" } else { "nolib" }) + if self.hold_once { ":hold-once" } else { "" }
 	}
 	fn config(&self) -> Value {
 		json!({"id_kind": format!("{:?}", self.id_kind), "ops": format!("{:?}", self.ops), "answered": self.answered, "fault": self.fault.name(), "lib_points": self.lib_points, "tx_points": self.tx_points})
 	}
 	fn mask(&self) -> fn(&str) -> bool {
 		if self.all_points { mask_all_client } else if self.lib_points { mask_lib } else { mask_nolib }
+	}
+	fn once_labels(&self) -> &'static [&'static str] {
+		if self.hold_once { &["client:send_task:before_handle", "client:read_task:before_followup", "tx:send", "tx:send:returning"] } else { &[] }
 	}
 	fn setup(&self) -> CliState {
 		clim::setup(&self.cfg())
@@ -232,8 +237,16 @@ fn scenarios(thorough: bool) -> Vec<FaultScenario> {
 			}
 			for ans in answered_sets {
 				for id_kind in [IdKind::Number, IdKind::String] {
-					out.push(FaultScenario { id_kind, ops: ops.clone(), answered: ans.clone(), fault: f.clone(), lib_points: true, tx_points: true, all_points: thorough });
+					out.push(FaultScenario { id_kind, ops: ops.clone(), answered: ans.clone(), fault: f.clone(), lib_points: true, tx_points: true, all_points: thorough, hold_once: false });
 				}
+			}
+		}
+	}
+	// the same tasks held back once and then running back to back (once-only points), a few histories × faults
+	for ops in [vec![FeOp::Call, FeOp::Call], vec![FeOp::Call, FeOp::Subscribe], vec![FeOp::Call, FeOp::Batch(2), FeOp::LateCall]] {
+		for f in [Fault::Send(0), Fault::Send(1), Fault::Recv(1), Fault::PeerClose(2), Fault::Garbage(2, "not json")] {
+			for ans in [vec![], vec![0usize]] {
+				out.push(FaultScenario { id_kind: IdKind::Number, ops: ops.clone(), answered: ans, fault: f.clone(), lib_points: true, tx_points: true, all_points: true, hold_once: true });
 			}
 		}
 	}
